@@ -20,7 +20,9 @@ import (
 	"io"
 	"log"
 	"math/big"
+	"strings"
 	"testing"
+	"time"
 
 	ct "github.com/google/certificate-transparency-go"
 	"github.com/google/certificate-transparency-go/asn1"
@@ -722,6 +724,7 @@ func (c *c05) signedObjects(keys []*verifkit.SKey) {
 	}
 
 	c.ctutilPaths(keys)
+	c.embeddedDates()
 	c.nilEntryPointers()
 	c.sizeBoundary()
 }
@@ -744,16 +747,21 @@ func (c *c05) ctutilPaths(keys []*verifkit.SKey) {
 		name    string
 		pem     string
 		precert bool
+		order   string
 	}
-	for _, sb := range []sub{{"cert", testdata.TestCertPEM + testdata.CACertPEM, false}, {"precert", testdata.TestPreCertPEM + testdata.CACertPEM, true},
-		{"precert-via-pre-issuer", "", true}} {
+	// the pre-issuer chain also with the poison BEFORE the authority key identifier (something following it, or the identifier
+	// last) and between the identifier and the next extension: the rewrite of §3.2 must not depend on where the poison sits
+	for _, sb := range []sub{{"cert", testdata.TestCertPEM + testdata.CACertPEM, false, ""}, {"precert", testdata.TestPreCertPEM + testdata.CACertPEM, true, ""},
+		{"precert-via-pre-issuer", "", true, ""}, {"precert-via-pre-issuer:poison,aki,san", "", true, "poison,aki,san"},
+		{"precert-via-pre-issuer:san,poison,aki", "", true, "san,poison,aki"}, {"precert-via-pre-issuer:aki,poison,san", "", true, "aki,poison,san"},
+		{"precert-via-pre-issuer:poison,san,aki", "", true, "poison,san,aki"}} {
 		var chain []*x509.Certificate
 		var err error
 		if sb.pem != "" {
 			chain, err = x509util.CertificatesFromPEM([]byte(sb.pem))
 		} else {
 			// [precertificate, Precertificate Signing Certificate (CT EKU), final CA], generated with the standard library
-			for _, d := range verifkit.PreIssuerChain() {
+			for _, d := range verifkit.PreIssuerChainOrder(sb.order) {
 				var x *x509.Certificate
 				if x, err = x509.ParseCertificate(d); x509.IsFatal(err) {
 					break
@@ -779,8 +787,11 @@ func (c *c05) ctutilPaths(keys []*verifkit.SKey) {
 				copy(s.ikh[:], ikh)
 				s.sig = k.Sign(4, verifkit.SCTSigInput(0, ts, et, cert, ikh, tbs, nil))
 				variants := []string{"genuine", "ts+1", "sig-bit", "hash-other", "alg-other", "version=1", "extensions-added", "loginfo"}
-				if sb.name == "precert-via-pre-issuer" {
+				if strings.HasPrefix(sb.name, "precert-via-pre-issuer") {
 					variants = append(variants, "signed-over-pre-issuer-key-hash")
+				}
+				if sb.order != "" {
+					variants = []string{"genuine", "sig-bit", "loginfo", "signed-over-pre-issuer-key-hash"}
 				}
 				for _, variant := range variants {
 					m := s
@@ -840,7 +851,11 @@ func (c *c05) ctutilPaths(keys []*verifkit.SKey) {
 					c.out.Count("outcome:" + got)
 					c.out.T(fmt.Sprintf("vctutil %s %d %s %s %s", vline(k, false, m.hash, m.alg, v, m.sig), k.Bits, verifkit.B(k.P256), verifkit.B(allow), m.fields()), got)
 					if got != exp {
-						c.out.Fail("ctutil "+variant+" "+sb.name+" key="+k.Name, fmt.Sprintf("= %s, the property requires %s (allow=%v)", got, exp, allow))
+						detail := ""
+						if sb.order != "" {
+							detail = fmt.Sprintf("; chain (hex DER, precertificate first; its extensions in order: %s): %s", verifkit.ExtensionOrder(chain[0].Raw), c05HexChain(chain))
+						}
+						c.out.Fail("ctutil "+variant+" "+sb.name+" key="+k.Name, fmt.Sprintf("= %s, the property requires %s (allow=%v)%s", got, exp, allow, detail))
 					}
 				}
 			}
@@ -890,6 +905,98 @@ func (c *c05) ctutilPaths(keys []*verifkit.SKey) {
 		c.out.T(fmt.Sprintf("vctutil %s 0 1 0 %s", vline(logKey, false, m.hash, m.alg, v, m.sig), m.fields()), got)
 		if got != exp || (variant == "genuine" && got != "ok") {
 			c.out.Fail("ctutil embedded "+variant, fmt.Sprintf("= %s, the property requires %s", got, exp))
+		}
+	}
+}
+
+func c05HexChain(chain []*x509.Certificate) string {
+	var parts []string
+	for _, x := range chain {
+		parts = append(parts, verifkit.Hex(x.Raw))
+	}
+	return strings.Join(parts, " ")
+}
+
+// embeddedDates: ctutil.VerifySCT(embedded) on final certificates (made with the standard library) whose validity touches the
+// UTCTime / GeneralizedTime cut-over of RFC 5280 §4.1.2.5 (years 1949/1950 and 2049/2050/2051): the precertificate entry is the
+// TBSCertificate without the SCT list and with EVERY other octet kept, so the dates must survive the library's re-encoding.
+func (c *c05) embeddedDates() {
+	saved := ct.AllowVerificationWithNonCompliantKeys
+	defer func() { ct.AllowVerificationWithNonCompliantKeys = saved }()
+	ct.AllowVerificationWithNonCompliantKeys = false
+	k := verifkit.KeyByName("p256")
+	d := func(y int, m time.Month, day, hh, mm, ss int) time.Time {
+		return time.Date(y, m, day, hh, mm, ss, 0, time.UTC)
+	}
+	pairs := [][2]time.Time{
+		{d(2020, 1, 1, 0, 0, 0), d(2049, 12, 31, 23, 59, 59)},
+		{d(2049, 12, 31, 23, 59, 59), d(2050, 1, 1, 0, 0, 0)},
+		{d(2050, 1, 1, 0, 0, 0), d(2050, 12, 31, 23, 59, 59)},
+		{d(2050, 6, 15, 12, 30, 45), d(2051, 1, 1, 0, 0, 0)},
+		{d(2049, 1, 1, 0, 0, 0), d(2051, 6, 1, 0, 0, 0)},
+		{d(2051, 1, 1, 0, 0, 0), d(2060, 1, 1, 0, 0, 0)},
+		{d(1950, 1, 1, 0, 0, 0), d(2050, 1, 1, 0, 0, 0)},
+		{d(1949, 12, 31, 23, 59, 59), d(1950, 1, 1, 0, 0, 1)},
+		{d(1950, 7, 1, 0, 0, 0), d(2049, 7, 1, 0, 0, 0)},
+		{d(2030, 2, 28, 1, 2, 3), d(2031, 2, 28, 1, 2, 3)},
+	}
+	for _, pr := range pairs {
+		name := pr[0].Format("2006-01-02T15:04:05") + ".." + pr[1].Format("2006-01-02T15:04:05")
+		ts := c05Ts[c.r.Intn(len(c05Ts))]
+		var logID [32]byte
+		copy(logID[:], c.r.Bytes(32))
+		var sigOver []byte
+		chainDER, err := verifkit.EmbeddedSCTChain(pr[0], pr[1], func(tbs, ikh []byte) []byte {
+			sigOver = k.Sign(4, verifkit.SCTSigInput(0, ts, 1, nil, ikh, tbs, nil))
+			b := append([]byte{0}, logID[:]...)
+			for i := 7; i >= 0; i-- {
+				b = append(b, byte(ts>>(8*uint(i))))
+			}
+			b = append(b, 0, 0, 4, byte(sigAlgOf(k)), byte(len(sigOver)>>8), byte(len(sigOver)))
+			return append(b, sigOver...)
+		})
+		if err != nil {
+			c.out.Fail("ctutil embedded-dates setup "+name, err.Error())
+			continue
+		}
+		var chain []*x509.Certificate
+		for _, der := range chainDER {
+			x, perr := x509.ParseCertificate(der)
+			if x509.IsFatal(perr) {
+				err = perr
+				break
+			}
+			chain = append(chain, x)
+		}
+		et, cert, ikh, tbs, ok := verifkit.IndependentEntry(chainDER, true, verifkit.OIDSCTList)
+		if err != nil || !ok {
+			c.out.Fail("ctutil embedded-dates setup "+name, fmt.Sprint(err, ok))
+			continue
+		}
+		for _, variant := range []string{"genuine", "ts+1", "sig-bit"} {
+			m := sctCase{ts: ts, etype: et, cert: cert, tbs: tbs, hash: 4, alg: sigAlgOf(k), sig: append([]byte(nil), sigOver...), logID: logID}
+			copy(m.ikh[:], ikh)
+			switch variant {
+			case "ts+1":
+				m.ts++
+			case "sig-bit":
+				m.sig = flipBit(m.sig, c.r.Intn(8*len(m.sig)))
+			}
+			sct, _ := m.objects()
+			var verr error
+			p := verifkit.Guard(func() { verr = VerifySCT(k.Pub, chain, &sct, true) })
+			got := outcome(verr, p)
+			v := k.Judge(m.hash, verifkit.SCTSigInput(0, m.ts, et, cert, ikh, tbs, nil), m.sig)
+			exp := "err"
+			if k.Expect(m.hash, m.alg, v) {
+				exp = "ok"
+			}
+			c.out.Count("class:ctutil:embedded-dates:" + variant)
+			c.out.Count("outcome:" + got)
+			c.out.T(fmt.Sprintf("vctutil %s %d %s 0 %s", vline(k, false, m.hash, m.alg, v, m.sig), k.Bits, verifkit.B(k.P256), m.fields()), got)
+			if got != exp || (variant == "genuine" && got != "ok") {
+				c.out.Fail("ctutil embedded-dates "+variant+" validity="+name, fmt.Sprintf("VerifySCT(embedded) = %s (%v), the property requires %s; chain (hex DER): %s", got, verr, exp, c05HexChain(chain)))
+			}
 		}
 	}
 }
